@@ -163,6 +163,10 @@ METHOD_ALIASES = {
     "cumsum": "np.cumsum",
     "squeeze": "np.squeeze",
     "round": "np.round",
+    "nonzero": "np.where",
+    "searchsorted": "np.searchsorted",
+    "conj": "np.conj",
+    "conjugate": "np.conj",
 }
 FUNC_ALIASES = {
     "np.amin": "np.min",
@@ -174,6 +178,9 @@ FUNC_ALIASES = {
     "np.asanyarray": "np.asarray",
     "np.flatnonzero": "np.flatnonzero",
     "np.nonzero": "np.where",  # np.where(m) with one argument is np.nonzero(m)
+    "np.remainder": "np.mod",
+    "np.conjugate": "np.conj",
+    "np.true_divide": "np.divide",
 }
 # numeric no-ops: f(x) == x for the purposes of term comparison
 TRANSPARENT = {"builtins.float", "np.asarray", "np.float64", "np.asfarray"}
@@ -396,6 +403,9 @@ def ite(c, a, b):
     return mk("ite", c, a, b)
 
 
+_NP_BIN = {"np.subtract": "-", "np.add": "+", "np.multiply": "*", "np.divide": "/"}
+_REDUCE_ALIASES = {"np.maximum.reduce": "np.max", "np.minimum.reduce": "np.min", "np.add.reduce": "np.sum", "np.logical_and.reduce": "np.all", "np.logical_or.reduce": "np.any"}
+_AXIS_SECOND = {"np.min", "np.max", "np.sum", "np.mean", "np.any", "np.all", "np.argmin", "np.argmax", "np.std", "np.median"}
 _OPERATOR_BIN = {"operator.mul": "*", "operator.add": "+", "operator.sub": "-", "operator.truediv": "/", "operator.and_": "&", "operator.or_": "|", "operator.mod": "%", "operator.floordiv": "//"}
 
 
@@ -407,6 +417,25 @@ def call(fn, args=(), kw=()):
         fn = ext(name)
     if name in CMP_FUNCS and len(args) == 2 and not kw:
         return cmp(CMP_FUNCS[name], args[0], args[1])
+    if name in _NP_BIN and len(args) == 2 and not kw:
+        return binop(_NP_BIN[name], args[0], args[1])  # np.subtract(a, b) is a - b
+    if name in _REDUCE_ALIASES and args:
+        # np.maximum.reduce(x) / np.add.reduce(x, axis=None) are np.max(x) / np.sum(x)   (ufunc.reduce defaults to axis 0:
+        # the same thing for the 1-d sequences and lists of scalars it is used on; an explicit axis is kept)
+        kw2 = tuple((k_, v_) for k_, v_ in kw if not (k_ == "axis" and (is_const(v_, None) or is_const(v_, 0))))
+        if len(args) == 1:
+            return call(ext(_REDUCE_ALIASES[name]), args, kw2)
+    if name in _AXIS_SECOND and len(args) == 2 and not any(k_ == "axis" for k_, _ in kw):
+        return call(fn, (args[0],), (("axis", args[1]),) + tuple(kw))  # np.min(x, 1) is np.min(x, axis=1)
+    if name == "np.all" and len(args) == 1 and not kw and args[0].op == "call" and callee_name(args[0].a[0]) == "np.isclose":
+        return call(ext("np.allclose"), args[0].a[1], args[0].a[2])  # np.isclose(a, b, ..).all() is np.allclose(a, b, ..)
+    if name == "np.arange" and len(args) == 2 and not kw and is_const(args[0], 0):
+        return call(fn, (args[1],), ())  # np.arange(0, n) is np.arange(n)
+    if name == "np.full" and len(args) == 2 and args[1].op == "const" and not isinstance(args[1].a[0], bool) and isinstance(args[1].a[0], float) and args[1].a[0] in (0.0, 1.0) and not any(k_ == "dtype" for k_, _ in kw):
+        # np.full(n, 0.0) is np.zeros(n); np.full(n, 1.0) is np.ones(n)
+        return call(ext("np.zeros" if args[1].a[0] == 0.0 else "np.ones"), (args[0],), kw)
+    if name == "re.match" and len(args) == 2 and not kw and args[0].op == "glob":
+        return method_call(args[0], "match", (args[1],))  # re.match(PATTERN, s) is PATTERN.match(s)
     if name == "builtins.len" and len(args) == 1 and not kw and args[0].op in ("tuple", "list") and not any(z.op == "star" for z in args[0].a):
         return const(len(args[0].a))  # the length of a display
     if name == "functools.reduce" and len(args) == 2 and not kw and args[0].op == "ext" and args[0].a[0] in _OPERATOR_BIN and args[1].op in ("tuple", "list") and 1 <= len(args[1].a) <= 8 and not any(z.op == "star" for z in args[1].a):
